@@ -78,6 +78,13 @@ func classify(sc *scenario, res *result) {
 			evid.Class("registered only after the request returned")
 		}
 	}
+	if sc.SDPShape != "" && res.outcome == "stream" {
+		evid.Class("SDP shape " + sc.SDPShape + ": stream served")
+		nt = true
+	}
+	if sc.Remap {
+		evid.Class("camera grants other interleaved pairs than asked (outside the pull client's domain: counted only), outcome=" + res.outcome)
+	}
 	if res.gluedPlay > 0 {
 		evid.Class(fmt.Sprintf("frames shared the PLAY answer's write: %s", bucket(res.gluedPlay)))
 		nt = true
@@ -343,6 +350,51 @@ func TestCoalescedWrites(t *testing.T) {
 	runBatch(t, "coalesced", scs)
 }
 
+// sdpShapes builds the scenarios over the shapes of a camera's session
+// description: audio-only, audio listed before video, a third (metadata)
+// section, and cameras that grant other interleaved pairs than asked.
+func sdpShapes() []*scenario {
+	var out []*scenario
+	i := 0
+	for _, shape := range []string{"audio-only", "audio-first", "three", ""} {
+		for _, challenge := range []bool{false, true} {
+			for _, glue := range []int{0, 5} {
+				for _, mode := range []string{"direct", "rtsp"} {
+					if mode == "rtsp" && shape == "three" {
+						continue // an RTSP player would try to set up the metadata track at ipchub, which is not this property
+					}
+					sc := &scenario{Audio: true, SDPShape: shape, Creds: "right", User: "admin", Pass: "pw", Initial: 6, GluePlay: glue,
+						Consumers: 1 + i%2, Live: 12, End: int(fakecam.AfterEOF), Mode: mode, SessionTimeout: i%2 == 0, FollowUp: i%4 == 0}
+					if challenge {
+						sc.Steps[fakecam.Describe] = fakecam.Behaviour{Kind: fakecam.Digest401, N: 1}
+					}
+					sc.Name = fmt.Sprintf("SDP shape %q", shape)
+					out = append(out, sc)
+					i++
+				}
+			}
+		}
+	}
+	// other pairs than asked: ipchub's pull client does not read the Transport of
+	// the answer, so this lies outside its domain; counted, outcome left open,
+	// cleanliness still owed
+	for _, shape := range []string{"", "audio-only"} {
+		sc := &scenario{Audio: true, SDPShape: shape, Remap: true, Creds: "right", User: "admin", Pass: "pw", Initial: 4, End: int(fakecam.AfterEOF), Mode: "direct", FollowUp: true}
+		sc.Name = "camera grants other interleaved pairs than asked"
+		out = append(out, sc)
+	}
+	return out
+}
+
+// TestSDPShapes: whatever tracks the camera describes and in whatever order,
+// every frame reaches the consumers on the ipchub channel of its track (video
+// RTP 0, video RTCP 1, audio RTP 2, audio RTCP 3), bytes untouched, in order.
+func TestSDPShapes(t *testing.T) {
+	scs := sdpShapes()
+	evid.ClassN("enumerated SDP-shape scenarios", int64(len(scs)))
+	runBatch(t, "sdp-shape", scs)
+}
+
 // TestReplayFile re-runs one saved case (a scenario, a sequential-requests case
 // or a simultaneous-requests case, told apart by the check name) without rapid.
 // Generated RTP programmes are not part of the rendering; the replay uses the
@@ -484,6 +536,14 @@ func genScenario(t *rapid.T) *scenario {
 	if !sc.DirRoute {
 		sc.URLShape = rapid.SampledFrom([]string{"", "", "nopath", "root", "query", "deep"}).Draw(t, "shape")
 	}
+	if sc.Mode != "flv" && rapid.IntRange(0, 3).Draw(t, "sdpShape?") == 0 {
+		shapes := []string{"audio-only", "audio-first", "three"}
+		if sc.Mode == "rtsp" {
+			shapes = shapes[:2]
+		}
+		sc.SDPShape = rapid.SampledFrom(shapes).Draw(t, "sdpShape")
+		sc.Audio = true
+	}
 	sc.SessionTimeout = rapid.Bool().Draw(t, "sessionTimeout")
 	sc.CacheGop = rapid.Bool().Draw(t, "cacheGop") && sc.Mode != "rtsp"
 	// 0..3 deviating steps (possibly behind each other), the rest ok; the accept
@@ -529,7 +589,7 @@ func genScenario(t *rapid.T) *scenario {
 	mediah.PadTinySlices(esgen.H264, aus)
 	vs := esgen.Packetise(t, esgen.H264, aus, esgen.PackConfig{MaxPacket: 1400, MaxFrags: 4})
 	var as *esgen.Stream
-	if sc.Audio {
+	if sc.hasAudio() {
 		ac := esgen.AacConfig{MaxAUs: 6, MaxAUSize: 300, Tags: true}
 		as = esgen.PacketiseAac(t, ac, ac.DrawAacAUs(t), esgen.PackConfig{})
 	}
@@ -540,7 +600,10 @@ func genScenario(t *rapid.T) *scenario {
 	if sc.Mode == "flv" {
 		tail = 800
 	}
-	for _, f := range fakecam.SimpleFrames(tail, sc.Audio) {
+	if sc.SDPShape == "audio-only" {
+		tail *= 4
+	}
+	for _, f := range fakecam.SimpleFrames(tail, sc.hasAudio()) {
 		sc.frames = append(sc.frames, f)
 	}
 	return sc
